@@ -4,6 +4,8 @@
         (model = loosenModel before, then promoteModel when "promote")
    {"op":"bcast","shapes":[[dim…]…]}   dim = int | "symbol" | null
         -> none | [d,d,…]  (rendered like annotations)
+   {"op":"consistent","m":MODEL}
+        -> {"vocab":n,"certified":k,"rejected":["scope|op|output|declared|inputs…", …]}  (all scopes)
 -/
 import J2O.Model.ModelTreeJson
 import J2O.Model.C08
@@ -14,6 +16,19 @@ def firstDiff : List String → List String → Option (String × String)
   | a :: as, b :: bs => if a == b then firstDiff as bs else some (a, b)
   | a :: _, [] => some (a, "<missing>")
   | [], b :: _ => some ("<missing>", b)
+
+/-- all scopes of a graph tree with a printable path; each scope's `vinfo` is extended by the
+    annotations of its enclosing scopes (captured outer values), local entries first -/
+partial def scopesOf (path : String) (outer : List (String × Annot)) (g : Graph) : List (String × Graph) :=
+  let vi := g.vinfo ++ outer
+  (path, .mk g.inputs g.inits g.nodes g.outputs vi) :: (g.nodes.zipIdx.flatMap fun (n, k) =>
+    n.bodies.zipIdx.flatMap fun (b, j) => scopesOf s!"{path}/{k}:{n.op}[{j}]" vi b)
+
+def rejectedOf (path : String) (g : Graph) : List String :=
+  (g.nodes.filter (fun n => inVocab n && !nodeConsistent g.vinfo n)).map fun n =>
+    let outs := ",".intercalate (n.outsRaw.map fun y => y ++ "=" ++ (annotOf g.vinfo y).render)
+    let ins := ",".intercalate (n.ins.map fun x => x ++ "=" ++ (annotOf g.vinfo x).render)
+    s!"{path}|{n.op}|{outs}|{ins}"
 
 def step (j : Json) : Except String String := do
   let op ← (← j.getObjVal? "op").getStr?
@@ -36,6 +51,15 @@ def step (j : Json) : Except String String := do
     match broadcastDims shapes with
     | none => pure "none"
     | some r => pure ("[" ++ ",".intercalate (r.map Dim.render) ++ "]")
+  | "consistent" =>
+    let m ← jModel (← j.getObjVal? "m")
+    let scopes := scopesOf "main" [] m.graph ++ m.funcs.flatMap (fun f => scopesOf ("fn " ++ f.name) [] f.asGraph)
+    let stats := scopes.map (fun (_, g) => consistentStats g)
+    let vocab : Nat := stats.foldl (fun a s => a + s.1) 0
+    let cert : Nat := stats.foldl (fun a s => a + s.2) 0
+    let rej := scopes.flatMap (fun (p, g) => rejectedOf p g)
+    pure (Json.mkObj [("vocab", toJson vocab), ("certified", toJson cert),
+                      ("rejected", Json.arr (rej.toArray.map Json.str))]).compress
   | _ => throw "unknown op"
 
 def main : IO Unit := do driverLoop (← IO.getStdin) step
